@@ -120,6 +120,8 @@ PTR_BYTES = {"uint8": 1, "uint16": 2, "uint32": 4, "uint64": 8}
 CURATED = [
     ("bits-roll", [["a", U16, 3], ["b", U16, 9], ["c", U16, 4], ["d", U8, None], ["e", U32, 8], ["f", U32, 24]]),
     ("bits-switch", [["a", U8, 4], ["b", U16, 4], ["c", U8, 4], ["d", U8, 4]]),
+    ("bits-rollover-tail", [["a", U16, None], ["b", U8, None], ["c", U8, 4], ["d", U8, 4], ["e", U8, 4]]),
+    ("bits-rollover-tail2", [["a", U32, None], ["c", U8, 4], ["d", U8, 4], ["e", U8, 1], ["f", U16, 9]]),
     ("same-name-arrays", [["a", arr(I48, 2), None], ["b", arr(U48, 2), None], ["c", arr(I48, 1), None]]),
     ("same-tag-inline-a", [["h", U8, None], ["e", arr(["struct", "entry", [["a", U8, None]], "tag"], 3), None],
                            ["f", arr(["struct", "entry", [["x", U32, None], ["y", U16, None]], "tag"], 3), None], ["t", U8, None]]),
